@@ -6,7 +6,7 @@ open SfVerif SfVerif.Gen
 
 /-- what deliberately survives a new invocation on a thread: the interner (with a pending
     intern destination) and the api crate's id cache -/
-def survivors (t : Thread) : Interner × Option Nat × List (Bytes × Nat) :=
+def survivors (t : Thread) : Interner × Option (Nat × Nat) × List (Bytes × Nat) :=
   (t.ctx.interner, t.lastIntern, t.cache)
 
 /-- starting an invocation rebuilds the whole context from the input bytes; input, roots, output,
